@@ -69,32 +69,41 @@ class Adapter(object):
     def __init__(self, t2grids):
         self.m = t2grids
         self.grid = t2grids.t2grid()
+        self.reg = {}          # id(obj) -> (obj, vid): identity of the real objects, not an attribute a copy would inherit
 
     def __deepcopy__(self, memo):
-        new = Adapter.__new__(Adapter)
-        new.m = self.m
+        new = self.__class__.__new__(self.__class__)
+        new.__dict__.update(self.__dict__)
         new.grid = copy.deepcopy(self.grid, memo)
+        new.reg = {}
+        for o, v in self.reg.values():
+            o2 = copy.deepcopy(o, memo)
+            new.reg[id(o2)] = (o2, v)
         return new
+
+    def vid(self, o):
+        e = self.reg.get(id(o))
+        return e[1] if e is not None else None
+
+    def setvid(self, o, v):
+        self.reg[id(o)] = (o, v)
 
     # ---- ids
     def _live(self, lst, dct):
         ids = set()
         for o in list(lst) + list(dct.values()):
-            v = getattr(o, '_vid', None)
+            v = self.vid(o)
             if v is not None:
                 ids.add(v)
         return ids
 
     def _tag_new(self, lst, dct):
         used = self._live(lst, dct)
-        for o in lst:
-            if getattr(o, '_vid', None) is None:
-                o._vid = lowest_unused(used)
-                used.add(o._vid)
-        for o in dct.values():
-            if getattr(o, '_vid', None) is None:
-                o._vid = lowest_unused(used)
-                used.add(o._vid)
+        for o in list(lst) + list(dct.values()):
+            if self.vid(o) is None:
+                v = lowest_unused(used)
+                self.setvid(o, v)
+                used.add(v)
 
     def tag_all(self):
         g = self.grid
@@ -109,7 +118,7 @@ class Adapter(object):
         with core.quiet():
             if op == "add_rocktype":
                 rt = m.rocktype(real_rock(a["r"]))
-                rt._vid = lowest_unused(self._live(g.rocktypelist, g.rocktype))
+                self.setvid(rt, lowest_unused(self._live(g.rocktypelist, g.rocktype)))
                 g.add_rocktype(rt)
             elif op == "delete_rocktype":
                 g.delete_rocktype(real_rock(a["r"]))
@@ -123,7 +132,7 @@ class Adapter(object):
                 bid = lowest_unused(used)
                 b = m.t2block(real_block(a["n"]), float(a["v"]), g.rocktype[real_rock(a["r"])],
                               centre=np.array([float(bid), 0., 0.]))
-                b._vid = bid
+                self.setvid(b, bid)
                 g.add_block(b)
             elif op == "delete_block":
                 g.delete_block(real_block(a["n"]))
@@ -135,7 +144,7 @@ class Adapter(object):
                 cos = {"v": -1.0, "h": 0.0}.get(k, 1.0)
                 c = m.t2connection([g.block[real_block(a["a"])], g.block[real_block(a["b"])]], direction,
                                    [10.0 * (2 * cid - 1), 10.0 * (2 * cid)], 100.0 * cid, cos)
-                c._vid = cid
+                self.setvid(c, cid)
                 g.add_connection(c)
             elif op == "delete_connection":
                 g.delete_connection((real_block(a["a"]), real_block(a["b"])))
@@ -150,12 +159,46 @@ class Adapter(object):
                 for i in a["cp"]:
                     c = g.connectionlist[i - 1]
                     names = tuple(b.name for b in c.block)
-                    cn.append(names[::-1] if getattr(c, '_vid', None) in a["rev"] else names)
+                    cn.append(names[::-1] if self.vid(c) in a["rev"] else names)
                 g.reorder(bn, cn or None)
             elif op == "minc":
-                fr = [f / 100.0 for f in a["fr"]]
+                scale = {"unit": 0.01, "sub": 0.006, "pct": 1.0, "wt": 0.05}[a.get("sc", "unit")]
+                fr = [f * scale for f in a["fr"]]
                 sel = [real_block(n) for n in a["sel"]] or None
                 g.minc(fr, blocks=sel, atmos_volume=float(self.atmvol))
+            elif op == "embed":
+                import numpy as np
+                n = a["n"]
+                sub = m.t2grid()
+                rt = m.rocktype(real_rock(a["r"]))
+                self.setvid(rt, lowest_unused(self._live(g.rocktypelist, g.rocktype)))
+                sub.add_rocktype(rt)
+                used = self._live(g.blocklist, g.block)
+                sb = []
+                for j in range(n):
+                    bid = lowest_unused(used)
+                    used.add(bid)
+                    b = m.t2block(real_block(["s", "t"][j]), 100.0, rt, centre=np.array([float(bid), 0., 0.]))
+                    self.setvid(b, bid)
+                    sub.add_block(b)
+                    sb.append(b)
+                cused = self._live(g.connectionlist, g.connection)
+                for j in range(n - 1):
+                    cid = lowest_unused(cused)
+                    cused.add(cid)
+                    c = m.t2connection([sb[j], sb[j + 1]], 1, [10.0 * (2 * cid - 1), 10.0 * (2 * cid)], 100.0 * cid, 0.0)
+                    self.setvid(c, cid)
+                    sub.add_connection(c)
+                cid = lowest_unused(cused)
+                k = a["k"]
+                link = m.t2connection([g.block[real_block(a["h"])], sb[0]], {"v": 3, "h": 1}.get(k, 2),
+                                      [10.0 * (2 * cid - 1), 10.0 * (2 * cid)], 100.0 * cid,
+                                      {"v": -1.0, "h": 0.0}.get(k, 1.0))
+                self.setvid(link, cid)
+                res = g.embed(sub, link)
+                if res is None:
+                    raise RuntimeError("embed() refused an in-domain embedding")
+                self.grid = res
             else:
                 raise ValueError("unknown op " + op)
         self.tag_all()
@@ -170,30 +213,31 @@ class Adapter(object):
         def bname(b):
             return abs_block(b.name)
 
-        blocks = [{"id": b._vid, "name": bname(b), "rock": abs_rock(b.rocktype.name),
+        V = self.vid
+        blocks = [{"id": V(b), "name": bname(b), "rock": abs_rock(b.rocktype.name),
                    "vol": _tok(b.volume, 1.0),
                    "ctr": _tok(b.centre[0] if b.centre is not None else 0, 1.0)} for b in g.blocklist]
-        blockDict = sorted([abs_block(k), v._vid] for k, v in g.block.items())
+        blockDict = sorted([abs_block(k), V(v)] for k, v in g.block.items())
         conns = []
         for c in g.connectionlist:
             minc = c.dircos is None
-            conns.append({"id": c._vid,
-                          "b1": getattr(c.block[0], '_vid', 0) or 0, "b2": getattr(c.block[1], '_vid', 0) or 0,
+            conns.append({"id": V(c),
+                          "b1": V(c.block[0]) or 0, "b2": V(c.block[1]) or 0,
                           "d1": 0 if minc else _tok(c.distance[0], 10.0),
                           "d2": 0 if minc else _tok(c.distance[1], 10.0),
                           "area": 0 if minc else _tok(c.area, 100.0),
                           "dir": int(c.direction),
                           "cos": NOCOS if minc else _tok(c.dircos, 1.0)})
-        connDict = sorted([abs_block(k[0]), abs_block(k[1]), v._vid] for k, v in g.connection.items())
+        connDict = sorted([abs_block(k[0]), abs_block(k[1]), V(v)] for k, v in g.connection.items())
         seen, connNames = set(), []
         for b in list(g.blocklist) + list(g.block.values()):
             if id(b) in seen:
                 continue
             seen.add(id(b))
-            connNames.append([b._vid, sorted([abs_block(k[0]), abs_block(k[1])] for k in b.connection_name)])
+            connNames.append([V(b), sorted([abs_block(k[0]), abs_block(k[1])] for k in b.connection_name)])
         connNames.sort()
-        rocks = [{"id": r._vid, "name": abs_rock(r.name)} for r in g.rocktypelist]
-        rockDict = sorted([abs_rock(k), v._vid] for k, v in g.rocktype.items())
+        rocks = [{"id": V(r), "name": abs_rock(r.name)} for r in g.rocktypelist]
+        rockDict = sorted([abs_rock(k), V(v)] for k, v in g.rocktype.items())
         return {"blocks": blocks, "blockDict": blockDict, "conns": conns, "connDict": connDict,
                 "connNames": connNames, "rocks": rocks, "rockDict": rockDict}
 
@@ -217,7 +261,7 @@ def key(st):
 
 # ---------------------------------------------------------------- trace validation
 TRACE_CFG = """CONSTANTS
-  Base = {"a"}
+  Base = {"a", "b", "c", "d", "e", "f", "g", "h"}
   RockBase = {"p", "q", "r"}
   Kinds = {"v"}
   Fracs = {}
@@ -355,7 +399,18 @@ def random_action(ad, rng, base, rocks, kinds, fracs, allow_minc=True):
         op = rng.choice(["add_rocktype", "delete_rocktype", "rename_rocktype", "clean_rocktypes",
                          "add_block", "add_block", "delete_block", "add_connection", "add_connection",
                          "delete_connection", "demote_block", "rename_blocks", "rename_blocks",
-                         "reorder", "reorder", "minc"])
+                         "reorder", "reorder", "minc", "embed"])
+        if op == "embed" and live:
+            h = rng.choice(live)
+            n = rng.randint(1, 2)
+            blocks = dict((abs_block(b.name), b) for b in g.blocklist)
+            if "s" not in liveset and "t" not in liveset and blocks[h].volume > 100.0 * n + 1e-9 \
+                    and abs(blocks[h].volume - round(blocks[h].volume)) < 1e-9:
+                r = rng.choice(rocks)
+                if r in rks and r in used:
+                    continue
+                return {"op": op, "h": h, "n": n, "r": r, "k": rng.choice(kinds)}
+            continue
         if op == "add_rocktype":
             r = rng.choice(rocks)
             if r in rks and r in used:
@@ -407,7 +462,7 @@ def random_action(ad, rng, base, rocks, kinds, fracs, allow_minc=True):
                 bp = []
             if not bp and not cp:
                 continue
-            rev = [c._vid for c in g.connectionlist if rng.random() < 0.4] if cp else []
+            rev = [ad.vid(c) for c in g.connectionlist if rng.random() < 0.4] if cp else []
             return {"op": op, "bp": bp, "cp": cp, "rev": sorted(rev)}
         if op == "minc" and allow_minc and live:
             fr = list(rng.choice(fracs))
@@ -418,7 +473,7 @@ def random_action(ad, rng, base, rocks, kinds, fracs, allow_minc=True):
             ok = ok and all(abs(blocks[n].volume * f / 100.0 - round(blocks[n].volume * f / 100.0)) < 1e-9
                             for n in tg for f in fr)
             if ok:
-                return {"op": op, "fr": fr, "sel": sel}
+                return {"op": op, "fr": fr, "sel": sel, "sc": rng.choice(["unit", "sub", "pct", "wt"])}
     return {"op": "clean_rocktypes"}
 
 
